@@ -106,7 +106,15 @@ fn worker(fd: Arc<File>, shared: Arc<Shared>) {
         assert!(matches!(&*s_guard, State::Started | State::Done(_)));
         drop(s_guard);
 
+        #[cfg(nomt_verif)]
+        let verif_pre = crate::verif::pre(crate::verif::Kind::Fsync, std::os::fd::AsRawFd::as_raw_fd(&*fd), 0, 0, None);
         let sync_result = fd.sync_all();
+        #[cfg(nomt_verif)]
+        let sync_result = crate::verif::merge(verif_pre, sync_result);
+        #[cfg(nomt_verif)]
+        if sync_result.is_ok() {
+            crate::verif::post(crate::verif::Kind::Fsync, std::os::fd::AsRawFd::as_raw_fd(&*fd));
+        }
 
         let mut s_guard = shared.s.lock();
         if matches!(&*s_guard, State::HandleDead) {
